@@ -131,3 +131,11 @@ M("c12-score-first-child", "C12", ("toast.py", "            if score > best_scor
 M("c12-quadrant-boundary", "C12", ("toast.py", "        if lon > np.pi and lon < THREEHALFPI and tile.pos.x == 0 and tile.pos.y == 1:", "        if lon > np.pi and lon < THREEHALFPI - 0.01 and tile.pos.x == 0 and tile.pos.y == 1:"))
 M("c12-stamp-offset", "C12", ("toast.py", "    return tile, x0 + x, y0 + y", "    return tile, min_x - halfsize + x, min_y - halfsize + y"))
 M("c12-lon-not-normalised", "C12", ("toast.py", "    lon = lon % TWOPI\n\n    if depth == 0:", "    lon = lon % TWOPI if lon >= 0 else lon + TWOPI\n\n    if depth == 0:"))
+
+# ---- C11
+M("c11-half-pixel-shift", "C11", ("samplers.py", "    lon0 = -np.pi + 0.5 / dx  # longitudes of the centers of the pixels with ix = 0\n    lat0 = HALFPI - 0.5 / dy  # latitudes of the centers of the pixels with iy = 0\n\n    def vec2pix(lon, lat):\n        lon = (lon + np.pi) % TWOPI - np.pi  # ensure in range [-pi, pi]\n        ix = (lon - lon0) * dx", "    lon0 = -np.pi  # longitudes of the centers of the pixels with ix = 0\n    lat0 = HALFPI - 0.5 / dy  # latitudes of the centers of the pixels with iy = 0\n\n    def vec2pix(lon, lat):\n        lon = (lon + np.pi) % TWOPI - np.pi  # ensure in range [-pi, pi]\n        ix = (lon - lon0) * dx"))
+M("c11-floor-for-round", "C11", ("samplers.py", "    lon0 = TWOPI - 0.5 / dx  # longitudes of the centers of the pixels with ix = 0\n    lat0 = HALFPI - 0.5 / dy  # latitudes of the centers of the pixels with iy = 0\n\n    def vec2pix(lon, lat):\n        lon = lon % TWOPI  # ensure in range [0, 2pi]\n        ix = (lon0 - lon) * dx\n        ix = np.round(ix).astype(int)", "    lon0 = TWOPI - 0.5 / dx  # longitudes of the centers of the pixels with ix = 0\n    lat0 = HALFPI - 0.5 / dy  # latitudes of the centers of the pixels with iy = 0\n\n    def vec2pix(lon, lat):\n        lon = lon % TWOPI  # ensure in range [0, 2pi]\n        ix = (lon0 - lon) * dx\n        ix = np.floor(ix).astype(int)"))
+M("c11-no-clip-lastcol", "C11", ("samplers.py", "        lon = lon % TWOPI  # ensure in range [0, 2pi]\n        ix = (lon0 - lon) * dx\n        ix = np.round(ix).astype(int)\n        ix = np.clip(ix, 0, nx - 1)", "        lon = lon % TWOPI  # ensure in range [0, 2pi]\n        ix = (lon0 - lon) * dx\n        ix = np.round(ix).astype(int)\n        ix = np.clip(ix, 0, nx)"))
+M("c11-galactic-latlon-swapped", "C11", ("samplers.py", "        lon, lat = gal.l.rad, gal.b.rad\n", "        lon, lat = gal.l.rad, lat\n"))
+M("c11-sky-wrap", "C11", ("samplers.py", "    lon0 = np.pi - 0.5 / dx  # longitudes of the centers of the pixels with ix = 0\n    lat0 = HALFPI - 0.5 / dy  # latitudes of the centers of the pixels with iy = 0\n\n    def vec2pix(lon, lat):\n        lon = (lon + np.pi) % TWOPI - np.pi  # ensure in range [-pi, pi]", "    lon0 = np.pi - 0.5 / dx  # longitudes of the centers of the pixels with ix = 0\n    lat0 = HALFPI - 0.5 / dy  # latitudes of the centers of the pixels with iy = 0\n\n    def vec2pix(lon, lat):\n        lon = np.where(lon > np.pi, lon - TWOPI, lon)  # ensure in range [-pi, pi]"))
+M("c11-ecliptic-row", "C11", ("samplers.py", "        lon, lat = ecl.lon.rad, ecl.lat.rad\n", "        lon, lat = ecl.lon.rad, -ecl.lat.rad\n"))
